@@ -297,8 +297,8 @@ def decisions(F):
         for c in live_calls(b):
             if c.name == "drop_cap_fsetid":
                 v = vf.VF(b, inline_depth=0)
-                owner = b.name if b.kind != "closure" else F.fns[b.owner].name + "/closure"
-                got.setdefault("killpriv/" + owner, []).append(facts_at(b, v, c.bb))
+                owner = b.name if b.kind != "closure" else F.fns[b.owner].name      # (a closure counts with the function it lives in)
+                got.setdefault("killpriv/" + owner, []).append([t.replace("^", "") for t in facts_at(b, v, c.bb)])
     # 2. size probe vs value for the xattr getters
     for nm in ("getxattr", "listxattr"):
         b = c08.pfs_method(F, nm)
